@@ -43,6 +43,15 @@ fn alphabet(size: u8) -> Vec<Tx> {
 			vec![(2, Op::Set(hk(1), hv(2)))],
 		]
 	}
+	if size == 6 {
+		// reference-counted roots: the commit that dereferences the locked tree also references another tree (a
+		// root-level operation); that tree then needs two dereferences to go
+		return vec![
+			vec![(0, Op::RefTree(rk(2))), (0, Op::DerefTree(rk(1)))],
+			vec![(0, Op::DerefTree(rk(2)))],
+			vec![(0, Op::DerefTree(rk(2))), (2, Op::Set(hk(1), hv(2)))],
+		]
+	}
 	if size == 7 {
 		// a commit that, besides the dereference of the locked tree, holds only root-level operations (a tree that
 		// is a single leaf root has no node changes): nothing of it may be lost when the dereference is postponed
@@ -72,10 +81,11 @@ fn alphabet(size: u8) -> Vec<Tx> {
 }
 
 fn scenario(name: &str, size: u8, n: usize, x: usize, three_cols: bool) -> Scenario {
+	let tree_col = if size == 6 { crate::props::c10::tree_spec("rc-roots") } else { ColSpec::tree() };
 	let cfg = if three_cols {
-		Config::new(vec![ColSpec::tree(), ColSpec::hash(), ColSpec::btree()])
+		Config::new(vec![tree_col, ColSpec::hash(), ColSpec::btree()])
 	} else {
-		Config::new(vec![ColSpec::tree(), ColSpec::btree()])
+		Config::new(vec![tree_col, ColSpec::btree()])
 	};
 	let mut alpha = alphabet(size);
 	if !three_cols {
@@ -89,7 +99,10 @@ fn scenario(name: &str, size: u8, n: usize, x: usize, three_cols: bool) -> Scena
 			}
 		}
 	}
-	let init_tx: Tx = vec![(0, Op::InsertTree(rk(1), t1_shape()))];
+	let mut init_tx: Tx = vec![(0, Op::InsertTree(rk(1), t1_shape()))];
+	if size == 6 {
+		init_tx.push((0, Op::InsertTree(rk(2), NodeSpec { data: B::pat(6, 5), children: vec![ChildSpec::New(NodeSpec::leaf(B::pat(8, 6)))] })));
+	}
 	let mut all = alpha.clone();
 	all.push(init_tx.clone());
 	let mut s = Scenario::new(name, cfg.clone(), alpha);
@@ -115,7 +128,7 @@ fn scenario(name: &str, size: u8, n: usize, x: usize, three_cols: bool) -> Scena
 			vec![]
 		}
 	}));
-	let tf = crate::props::c10::tree_filter(false, false);
+	let tf = crate::props::c10::tree_filter(size == 6, false);
 	let init2 = s.init.clone();
 	s.filter = Some(Arc::new(move |hist: &[Ev], ev: &Ev| {
 		// every P while the lock is held re-queues the postponed dereference under a fresh id (a new state each
@@ -137,9 +150,9 @@ fn scenario(name: &str, size: u8, n: usize, x: usize, three_cols: bool) -> Scena
 
 pub fn scenarios(tier: &str) -> Vec<Scenario> {
 	if tier == "thorough" {
-		vec![scenario("lock/3col-n3", 1, 3, 1, true), scenario("lock/2col-n4-small", 0, 4, 1, false), scenario("lock/2col-n3-insert+deref-in-one-transaction", 9, 3, 1, false), scenario("lock/2col-n3-reuse-below-a-new-inner-node", 8, 3, 1, false), scenario("lock/2col-n3-leaf-root-inserted-with-the-dereference", 7, 3, 1, false)]
+		vec![scenario("lock/3col-n3", 1, 3, 1, true), scenario("lock/2col-n4-small", 0, 4, 1, false), scenario("lock/2col-n3-insert+deref-in-one-transaction", 9, 3, 1, false), scenario("lock/2col-n3-reuse-below-a-new-inner-node", 8, 3, 1, false), scenario("lock/2col-n3-leaf-root-inserted-with-the-dereference", 7, 3, 1, false), scenario("lock/2col-n3-counted-roots-reference-with-the-dereference", 6, 3, 1, false)]
 	} else {
-		vec![scenario("lock/2col-n2-leaf-root-inserted-with-the-dereference", 7, 2, 0, false), scenario("lock/2col-n2-insert+deref-in-one-transaction", 9, 2, 0, false), scenario("lock/2col-n2-reuse-below-a-new-inner-node", 8, 2, 0, false), scenario("lock/3col-n2", 0, 2, 0, true), scenario("lock/2col-n2", 0, 2, 1, false)]
+		vec![scenario("lock/2col-n2-leaf-root-inserted-with-the-dereference", 7, 2, 0, false), scenario("lock/2col-n2-counted-roots-reference-with-the-dereference", 6, 2, 0, false), scenario("lock/2col-n2-insert+deref-in-one-transaction", 9, 2, 0, false), scenario("lock/2col-n2-reuse-below-a-new-inner-node", 8, 2, 0, false), scenario("lock/3col-n2", 0, 2, 0, true), scenario("lock/2col-n2", 0, 2, 1, false)]
 	}
 }
 
